@@ -26,3 +26,10 @@ func (v *VerifShard) HoldFiles(mst string) (release func()) {
 		held = nil
 	}
 }
+
+// DetachFromCompactor removes the shard from the process-wide background compactor (a 10 s
+// ticker that merges and compacts every registered shard) and leaves compaction and merge
+// enabled, so that the harness alone decides when they run. (DisableBackground is not usable
+// for that: DisableCompAndMerge closes the table store's task scheduler for good, after which
+// LevelCompact and FullCompact silently do nothing.)
+func (v *VerifShard) DetachFromCompactor() { compWorker.UnregisterShard(v.sh.ident.ShardID) }
